@@ -117,7 +117,12 @@ class Node(BaseComponent):
 
                 @handler(event_name, channel=channel)
                 def event_handle(self, event, *args, **kwargs):
-                    yield self.call(remote(event, connection_name))
+                    # (an event fired on several of the listed channels is
+                    # one event: it is forwarded to the peer once)
+                    forwarded = event.__dict__.setdefault('node_forwarded', [])
+                    if connection_name not in forwarded:
+                        forwarded.append(connection_name)
+                        yield self.call(remote(event, connection_name))
 
                 # (one handler per channel: handler() records the channel on
                 # the function it decorates)
